@@ -178,28 +178,62 @@ def run(facts, tier):
                any(tt.get("callee") and facts.callee_name(tt["callee"]) == "xml_xpath::eval::eval_predicate" for _, tt in facts.mir_calls(x))]
     if not callers:
         raise BrokenCheck("C05-frames: no caller of eval_predicate")
-    for g in callers:
+    def frame_check(g, target_name, pos_from_arg=None):
+        """In g every call of `target_name` is dominated by push_size(len) [and push_position(index+1)].  When the position is a
+        parameter of g handed on unchanged (+k), g is a wrapper `push_position; eval; pop_position`: returns (param index, k)
+        and the callers of g are checked in its place."""
         succ = e1.cfg(facts, g)
         dom, _ = e1.dominators(succ)
         defs = e1.def_sites(facts, g)
-        blocks = facts.blocks(g)
         ps = [(bi, tt) for bi, tt in facts.mir_calls(g) if tt.get("callee") and facts.callee_name(tt["callee"]).endswith("Context::push_size")]
         pp = [(bi, tt) for bi, tt in facts.mir_calls(g) if tt.get("callee") and facts.callee_name(tt["callee"]).endswith("Context::push_position")]
-        ev = [bi for bi, tt in facts.mir_calls(g) if tt.get("callee") and facts.callee_name(tt["callee"]) == "xml_xpath::eval::eval_predicate"]
-        st5["instances"] += 1
+        ev = [(bi, tt) for bi, tt in facts.mir_calls(g) if tt.get("callee") and facts.callee_name(tt["callee"]) == target_name]
         problems = []
-        if not all(any(b in dom[e] for b, _ in ps) and any(b in dom[e] for b, _ in pp) for e in ev):
-            problems.append("eval_predicate is not dominated by push_size and push_position")
+        wrapper = None
+        if pos_from_arg is None:
+            affs = [c14.affine(facts, g, defs, tt["args"][1]) for _, tt in pp]
+            names = [q.get("name") for q in (g.get("params") or [])]
+            if affs and all(a[0].startswith("arg:") and a[0][4:] in names for a in affs) and len({a for a in affs}) == 1 and not ps:
+                if not all(any(b in dom[e] for b, _ in pp) for e, _ in ev):
+                    problems.append("eval_predicate is not dominated by push_position")
+                wrapper = (names.index(affs[0][0][4:]), affs[0][1])
+                return problems, wrapper
+            if not all(any(b in dom[e] for b, _ in ps) and any(b in dom[e] for b, _ in pp) for e, _ in ev):
+                problems.append("eval_predicate is not dominated by push_size and push_position")
+            for a in affs:
+                if a[1] != 1:
+                    problems.append("push_position is given index%+d, expected index+1" % a[1])
+        else:
+            pi, k = pos_from_arg
+            if not all(any(b in dom[e] for b, _ in ps) for e, _ in ev):
+                problems.append("%s is not dominated by push_size" % target_name.split("::")[-1])
+            for _, tt in ev:
+                a = c14.affine(facts, g, defs, tt["args"][pi]) if pi < len(tt.get("args", [])) else ("?", 0)
+                if a[1] + k != 1:
+                    problems.append("the position handed to %s is index%+d, expected index+1" % (target_name.split("::")[-1], a[1] + k))
         for bi, tt in ps:
             if e1.producer(facts, g, defs, tt["args"][1]) != "len":
                 problems.append("push_size is not given the length of the node vector")
-        for bi, tt in pp:
-            a = c14.affine(facts, g, defs, tt["args"][1])
-            if a[1] != 1:
-                problems.append("push_position is given index%+d, expected index+1" % a[1])
-        res.oblige(1, not problems)
-        if problems:
-            res.add(Finding("C05-frames", g["path"].split("::")[-1], "%s: %s" % (g["path"], "; ".join(sorted(set(problems)))), g["file"], g["line"], {}))
+        return problems, None
+
+    work = [(g, "xml_xpath::eval::eval_predicate", None) for g in callers]
+    depth = 0
+    while work and depth < 4:
+        nxt = []
+        for g, target, pfa in work:
+            st5["instances"] += 1
+            problems, wrapper = frame_check(g, target, pfa)
+            if wrapper is not None and not problems:
+                up = [x for x in facts.fns.values() if x["crate"] == "xml_xpath" and "body" in x and x["id"] != g["id"] and
+                      any(tt.get("callee") and facts.callee_name(tt["callee"]) == g["path"] for _, tt in facts.mir_calls(x))]
+                if not up:
+                    problems.append("wrapper without callers")
+                nxt += [(x, g["path"], wrapper) for x in up]
+            res.oblige(1, not problems)
+            if problems:
+                res.add(Finding("C05-frames", g["path"].split("::")[-1], "%s: %s" % (g["path"], "; ".join(sorted(set(problems)))), g["file"], g["line"], {}))
+        work = nxt
+        depth += 1
     # ---- shared rules
     it, fns, rounds = c07.solve(facts)
     s = it.summary(facts.fn("xml_xpath::eval::document")["id"])
